@@ -889,6 +889,11 @@ MD_GRAFTS = {
     "md_inject_conflict_mixed": [_JOB("j0", "x = 1"), _BLK("dup", "b.h"), _JOB("j1", "y = 2"), _BLK("dup", "c.h")],
     "md_job_conflict_later": [_JOB("j0", "x = 1"), _JOB("dup", "y = 1"), _JOB("dup", "y = 2")],
     "md_job_missing_dependency": [_JOB("j0", "x = 1", ["nothere"])],
+    # the missing dependency is carried by only ONE of two identical declarations of a block (either position): the
+    # merged block depends on it all the same
+    "md_job_missing_dependency_on_repeat": [_JOB("j0", "x = 1"), _JOB("j1", "y = 1"), _JOB("j0", "x = 1", ["nothere"])],
+    "md_job_missing_dependency_on_first": [_JOB("j0", "x = 1", ["nothere"]), _JOB("j1", "y = 1", ["j0"]), _JOB("j0", "x = 1")],
+    "md_job_cycle_via_repeat": [_JOB("j0", "x = 1"), _JOB("j1", "y = 1", ["j0"]), _JOB("j0", "x = 1", ["j1"])],
     "md_unknown_type": {"metadata_type": "bogus_type", "name": "x"},
     "md_missing_type": {"name": "x"},
     "md_bad_inject_field": {"metadata_type": "inject_code", "name": "blk", "bogus_field": ["int x;"]},
